@@ -353,6 +353,10 @@ func judge(j *Job, r Result) {
 			Input: in, Expected: e.Trap + fmt.Sprintf(" ret=%#x", e.Ret), Actual: r.Fault})
 		return
 	}
+	if p.Mem == "imported-mismatch" && strings.HasPrefix(r.Err, "instantiate:") && strings.Contains(r.Err, "shared") {
+		rep.Count("imported-mismatch:refused-by-the-linker")
+		return
+	}
 	if strings.HasPrefix(r.Err, "compile:") || strings.HasPrefix(r.Err, "instantiate:") || r.Err == "allocator not used" || r.Err == "prefill failed" {
 		hx.Fatal("job %d (%s): %s", j.ID, p.Tmpl, r.Err)
 	}
